@@ -347,8 +347,8 @@ fn main() {
 		PartSpec {
 			name: "lifecycle",
 			rule: "random world (pair, line of 3/4, diamond, parallel channels; all channel types and parameters of netsim's world_spec; forwarding cltv deltas 72..83) + 8..N generated operations: S pays by explicit single path, explicit multi-path route (2-4 parts), the real router with Retry::Attempts(0..3) (with and without MPP), keysend, underpaying routes a forwarder must fail; duplicate-id sends, abandon_payment; recipients claim / fail back / ignore until timeout; single-message delivery, disconnect / reconnect at every point of the removal dance (ResolveCut, Interrupt), asynchronous persistence at S with generated completion order, manager snapshots and restarts of S from any earlier snapshot with durable or latest-written monitors, force closes by any node, block mining with generated inclusion, timer ticks; then a bounded end game (settle, resolve claimable payments by generated choice, mine until nothing of S is in flight). Oracles (a)-(g) of the design over S's events, list_recent_payments, API results, wire-level HTLC tracking and the BOLT-2 model. Non-trivial: a terminal event was reached and the history has a fulfil/fail redelivered after reconnection, a restart of S between send and terminal event, an MPP with mixed part outcomes, or an on-chain resolution of one of S's HTLCs",
-			quick_cases: 1500,
-			thorough_cases: 40_000,
+			quick_cases: 1400,
+			thorough_cases: 36_000,
 			max_shrink: 300,
 		},
 		move || strat(max_ops, true, true),
@@ -358,8 +358,8 @@ fn main() {
 		PartSpec {
 			name: "exact-accounting",
 			rule: "same worlds; 1..5 rounds, each: settle to quiescence, read S's balances (sum of outbound_capacity_msat over its channels), send ONE payment (any kind), 0..6 disturbance operations (single deliveries, disconnect / reconnect, interrupt, asynchronous persistence, snapshot / restart of S, duplicate-id send, timer ticks), the recipient claims or fails back (optionally after abandon_payment) with the removal dance cut after 0..7 messages and resumed after reconnection, settle, read the balances again: PaymentSent => decrease == amount_msat + fee_paid_msat exactly; otherwise the balances are unchanged; exactly one terminal event. A round ends the case when a channel of S closed or quiescence was not reached. Non-trivial: >=1 measured payment whose round contained a disconnect, restart, cut or asynchronous update",
-			quick_cases: 500,
-			thorough_cases: 12_000,
+			quick_cases: 400,
+			thorough_cases: 10_000,
 			max_shrink: 300,
 		},
 		acct_strat,
